@@ -238,12 +238,25 @@ def events_case(item):
                 stamp = d + pd.Timedelta(hours=15 if k % 2 == 0 else 18)
                 rows[stamp] = {"a": k % 3 != 0, "b": k % 2 == 0, "d": k % 3 != 1}
             t = pd.DataFrame(rows).T.astype(bool)
+        elif kind == "pte_frame":
+            # target weights that change from date to date, handed to PTE_Rebalance as a frame
+            t = pd.DataFrame({"a": [0.25 + 0.0625 * (i % 5) for i in range(n)], "b": [0.5 - 0.0625 * (i % 4) for i in range(n)], "d": [0.125] * n}, index=idx)
         elif kind == "close_between":
             # close dates on a Saturday and a Sunday
             t = pd.DataFrame({"date": [pd.Timestamp("2020-01-11"), pd.Timestamp("2020-01-19")]}, index=["a", "b"])
         else:
             t = pd.DataFrame({"date": [pd.Timestamp("2020-01-11"), pd.Timestamp("2020-01-18")], "target": ["d", "d"], "factor": [2.0, 0.5]}, index=["a", "b"])
         if cut is None:
+            return t
+        if kind == "pte_frame":
+            later = t.index > cut
+            if not later.any():
+                return None
+            t = t.copy()
+            if p[1] == "drop":
+                t.loc[later, :] = 1.0 / 3.0
+            else:
+                t.loc[later, :] = t.loc[later, :].values[:, ::-1]
             return t
         if kind in ("target_intraday", "where_intraday"):
             later = t.index > cut
@@ -273,6 +286,8 @@ def events_case(item):
             st = [A.WeighTarget("tab"), A.Rebalance()]
         elif kind == "where_intraday":
             st = [A.SelectAll(), A.SelectWhere("tab"), A.WeighEqually(), A.Rebalance()]
+        elif kind == "pte_frame":
+            st = [A.Or([A.RunOnce(), A.PTE_Rebalance(0.05, t, lookback=pd.DateOffset(days=6))]), A.SelectAll(), A.WeighEqually(), A.Rebalance()]
         elif kind == "close_between":
             st = [A.ClosePositionsAfterDates("tab"), A.RunOnce(), A.SelectThese(["a", "b"]), A.WeighEqually(), A.Rebalance()]
         else:
@@ -385,7 +400,7 @@ def run(ctx):
             nt += differ
             for v in viols:
                 ctx.violation(dict(v, build=kind, module=MOD, case={"kind": "blotter", "item": list(item), "where": v.get("where")}))
-        evs = [(k, p) for k in ("target_intraday", "where_intraday", "close_between", "roll_between") for p in ("change", "drop")]
+        evs = [(k, p) for k in ("target_intraday", "where_intraday", "close_between", "roll_between", "pte_frame") for p in ("change", "drop")]
         for item, (status, viols, n, differ) in ctx.run(kind, MOD, "events_case", evs, chunksize=1):
             ctx.add(states=1, transitions=n + 1, traces_validated_against_impl=n + 1, evaluations=n)
             tot += n
